@@ -4,6 +4,10 @@ import (
 	"fmt"
 	"time"
 
+	"github.com/named-data/ndnd/fw/defn"
+	"github.com/named-data/ndnd/fw/face"
+	"verif/internal/fwenv"
+
 	fwfw "github.com/named-data/ndnd/fw/fw"
 	"github.com/named-data/ndnd/fw/table"
 
@@ -219,7 +223,12 @@ func init() {
 			}
 			return 500
 		},
-		Run:         fwRunner("C09", 40, 1200),
+		Run: func(c *h.Ctx) {
+			if c.Batch < 2 {
+				c09Transports(c)
+			}
+			fwRunner("C09", 40, 1200)(c)
+		},
 		MinDistinct: 25,
 		Floors:      map[string]int64{"localhost_packets_from_nonlocal": 100, "localhost_packets_local": 200},
 	})
@@ -269,3 +278,72 @@ func init() {
 		Floors:      map[string]int64{"structure_checks": 2000, "quiescence_checks": 50, "fib_struct_checks": 1000, "rib_struct_checks": 1000},
 	})
 }
+
+// ---- C09: scope classification of real transports (a face towards a non-loopback peer is non-local)
+
+func c09Transports(c *h.Ctx) {
+	fwenvLoadDefault()
+	type tc struct {
+		kind, host string
+		ver        int
+		local      bool
+	}
+	cases := []tc{
+		{"udp", "127.0.0.1", 4, true}, {"udp", "127.44.55.66", 4, true}, {"udp", "::1", 6, true},
+		{"udp", "192.0.2.77", 4, false}, {"udp", "10.9.8.7", 4, false}, {"udp", "fd00::77", 6, false},
+		{"tcp", "127.0.0.1", 4, true}, {"tcp", "127.1.2.3", 4, true}, {"tcp", "::1", 6, true},
+		{"tcp", "192.0.2.77", 4, false}, {"tcp", "203.0.113.5", 4, false}, {"tcp", "2001:db8::5", 6, false},
+	}
+	for i, t := range cases {
+		id := fmt.Sprintf("transport%d", i)
+		if !c.Case(id) {
+			continue
+		}
+		c.Eval(1)
+		var scope defn.Scope = defn.Unknown
+		built := false
+		port := uint16(20000 + c.Batch*50 + i)
+		_ = h.Guard(func() {
+			switch t.kind {
+			case "udp":
+				remote := defn.MakeUDPFaceURI(t.ver, t.host, 6363)
+				lh := "127.0.0.1"
+				if t.ver == 6 {
+					lh = "::1"
+				}
+				if !t.local {
+					lh = map[int]string{4: "0.0.0.0", 6: "::"}[t.ver]
+				}
+				local := defn.MakeUDPFaceURI(t.ver, lh, port)
+				tr, err := face.MakeUnicastUDPTransport(remote, local, face.PersistencyPersistent)
+				if err == nil && tr != nil {
+					scope, built = tr.Scope(), true
+					tr.Close()
+				}
+			case "tcp":
+				remote := defn.MakeTCPFaceURI(t.ver, t.host, 9)
+				tr, err := face.MakeUnicastTCPTransport(remote, nil, face.PersistencyPersistent)
+				if err == nil && tr != nil {
+					scope, built = tr.Scope(), true
+					tr.Close()
+				}
+			}
+		})
+		if !built {
+			c.Count("transports_not_constructible", 1)
+			continue
+		}
+		c.Count("transports_classified", 1)
+		c.Distinct(fmt.Sprintf("transport|%s|v%d|local=%v", t.kind, t.ver, t.local))
+		want := defn.NonLocal
+		if t.local {
+			want = defn.Local
+		}
+		if scope != want {
+			c.Violation(fmt.Sprintf("C09:transport-scope-wrong:%s:peer-loopback=%v", t.kind, t.local), id, fmt.Sprintf("a %s face towards %s is classified as scope %d (local=1, non-local=0): /localhost traffic would be accepted from / sent to it", t.kind, t.host, scope),
+				map[string]any{"kind": t.kind, "peer": t.host})
+		}
+	}
+}
+
+func fwenvLoadDefault() { fwenv.Load(fwenv.Config()) }
